@@ -713,22 +713,32 @@ def corr_decoder(ctx, impl, n_cases, extra_streams=()):
             nsamp = (len(meta["expected"]) // max(1, c["nchan"])) + r.choice([0, 0, 7])
         got = impl.decode(payload, c["nchan"], nsamp + 8, c["ftype"], dtkey)
         rows.append((payload, meta, dtkey, nsamp + 8, got))
-    shard = 100
-    files = []
-    for s in range(0, len(rows), shard):
-        body = ["Definition agree (m : res (list Z)) (k : Z) (d : list Z) : Z :=\n"
-                "  match m with\n  | Ok l => if (k =? 0) && list_eqb l d then 0 else 3\n"
-                "  | Err EIO => if k =? 1 then 1 else 3\n  | Err EUnspec => 2\n  | Err EFuel => 4\n  end.\n"]
-        for j, (payload, meta, dtkey, nsamp, got) in enumerate(rows[s:s + shard]):
-            k = {"ok": 0, "ioerror": 1, "other": 5}[got[0]]
-            d = got[1] if got[0] == "ok" else []
-            body.append("Eval vm_compute in (agree (shn_decode %s %s) %d %s).\n" % (
-                DT[dtkey][0], C.zlist(list(payload)), k, C.zlist(d)))
-        files.append(("decB_%d" % (s // shard), "".join(body)))
+    # shards of at most 100 streams and about 600 kB (a reference vector gets a file of its own)
+    files, chunks, cur, size = [], [], [], 0
+    head = ("Definition agree (m : res (list Z)) (k : Z) (d : list Z) : Z :=\n"
+            "  match m with\n  | Ok l => if (k =? 0) && list_eqb l d then 0 else 3\n"
+            "  | Err EIO => if k =? 1 then 1 else 3\n  | Err EUnspec => 2\n  | Err EFuel => 4\n  end.\n")
+
+    def flush():
+        if cur:
+            files.append(("decB_%d" % len(files), head + "".join(t for t, _ in cur)))
+            chunks.append([r for _, r in cur])
+
+    for row in rows:
+        payload, meta, dtkey, nsamp, got = row
+        k = {"ok": 0, "ioerror": 1, "other": 5}[got[0]]
+        d = got[1] if got[0] == "ok" else []
+        text = "Eval vm_compute in (agree (shn_decode %s %s) %d %s).\n" % (
+            DT[dtkey][0], C.zlist(list(payload)), k, C.zlist(d))
+        if cur and (len(cur) >= 100 or size + len(text) > 600000):
+            flush()
+            cur, size = [], 0
+        cur.append((text, row))
+        size += len(text)
+    flush()
     res = C.coq_eval_many(ctx, files, REQ)
     bad = 0
-    for (name, _), (ans, log), s in zip(files, res, range(0, len(rows), shard)):
-        chunk = rows[s:s + shard]
+    for (name, _), (ans, log), chunk in zip(files, res, chunks):
         if ans is None or len(ans) != len(chunk):
             ctx.fail("Coq evaluation of the decoder cases failed (%s)" % name,
                      dict(correspondence="model decoder vs implementation", log_tail=(log or "")[-1500:]),
